@@ -7,6 +7,7 @@ import (
 	"go/constant"
 	"go/token"
 	"go/types"
+	"golang.org/x/tools/go/ssa"
 	"sort"
 	"strconv"
 	"strings"
@@ -151,6 +152,71 @@ func checkC12(c *Ctx) {
 	signedIndexRule(c, "R7.signedindex", "band", func(recv, meth string) bool {
 		return strings.HasPrefix(meth, "GetRX1") || meth == "GetPingSlotFrequency" || meth == "GetDefaults"
 	})
+	c12LockStep(c)
+	ruleFreshBands(c, "R9.fresh-tables")
+}
+
+// c12LockStep (R8): the RX1 channel of an uplink channel is found by index in the downlink table, so the two tables
+// must grow together: in every function outside the constructors that appends to the uplink table, each return that
+// the uplink append dominates is also dominated by an append to the downlink table.
+func c12LockStep(c *Ctx) {
+	r := c.Run
+	P := c.Prog
+	const rule = "R8.lockstep"
+	r.Rule(rule, "outside the constructors an append to uplinkChannels is always accompanied by an append to downlinkChannels before the function returns (RX1 channels are found by index)")
+	n := 0
+	for _, f := range c15BandFunctions(c) {
+		top := f
+		for top.Parent() != nil {
+			top = top.Parent()
+		}
+		if c15CtorRe.MatchString(top.Name()) || top.Name() == "init" {
+			continue
+		}
+		var up, down []*ssa.Store
+		for _, b := range f.Blocks {
+			for _, ins := range b.Instrs {
+				st, ok := ins.(*ssa.Store)
+				if !ok {
+					continue
+				}
+				fa, ok := st.Addr.(*ssa.FieldAddr)
+				if !ok || !c15IsChannelSlice(st.Val.Type()) {
+					continue
+				}
+				switch c15ChannelFieldName(fa) {
+				case "uplinkChannels":
+					up = append(up, st)
+				case "downlinkChannels":
+					down = append(down, st)
+				}
+			}
+		}
+		for i, u := range up {
+			n++
+			key := fmt.Sprintf("band.%s/uplink-append#%d", f.Name(), i+1)
+			bad := ""
+			for _, b := range f.Blocks {
+				ret, ok := b.Instrs[len(b.Instrs)-1].(*ssa.Return)
+				if !ok || !u.Block().Dominates(b) {
+					continue
+				}
+				covered := false
+				for _, d := range down {
+					if d.Block().Dominates(b) {
+						covered = true
+					}
+				}
+				if !covered && bad == "" {
+					bad = "return at " + P.Rel(ret.Pos()) + " follows the uplink append without a downlink append"
+				}
+			}
+			r.Check(bad == "", rule, key, P.Rel(u.Pos()), "every return after the uplink append is also after a downlink append", bad, true)
+		}
+	}
+	if n == 0 {
+		r.Unknown(rule, "band", "", "a function that appends to uplinkChannels (AddChannel)", "none found")
+	}
 }
 
 // guardDomain parses leading guards of the form `if p < a || p > b { return …, <non-nil> }` and returns the
